@@ -198,6 +198,34 @@ Proof.
   rewrite outs_cons, step_norun; [now apply IH|]. now destruct (is_run o).
 Qed.
 
+(* ---- 0. the listener's faults are no input of anything ------------------------------------- *)
+
+Definition same_but_faults (c c' : cfg) : Prop :=
+  regs c = regs c' /\ kregs c = kregs c' /\ sraise c = sraise c' /\ aregs c = aregs c'.
+
+Lemma deliver_cfg c c' s q : same_but_faults c c' -> deliver c s q = deliver c' s q.
+Proof. intros (R & _). destruct q; simpl; now rewrite ?R. Qed.
+
+Lemma drain_cfg c c' l : same_but_faults c c' -> forall s, drain c s l = drain c' s l.
+Proof.
+  intro E. induction l as [|q l IH]; intro s; [reflexivity|].
+  simpl. rewrite (deliver_cfg c c' s q E). destruct (deliver c' s q) as [s1 o1]. now rewrite IH.
+Qed.
+
+Lemma step_cfg c c' s o : same_but_faults c c' -> step c s o = step c' s o.
+Proof.
+  intro E. pose proof E as (R & K & S & A).
+  destruct o; simpl; unfold user_vol; rewrite ?R, ?K, ?S, ?A; try reflexivity.
+  - destruct (queue s) as [|q tl]; [reflexivity|]. now rewrite (deliver_cfg c c' _ q E).
+  - now rewrite (drain_cfg c c' (queue s) E).
+Qed.
+
+Lemma steps_cfg c c' : same_but_faults c c' -> forall ops s, steps c s ops = steps c' s ops.
+Proof.
+  intro E. induction ops as [|o t IH]; intro s; [reflexivity|].
+  rewrite !steps_cons, (step_cfg c c' s o E), IH. reflexivity.
+Qed.
+
 (* ---- 1. only on change, in order ------------------------------------------------------------ *)
 
 Lemma plays_deliver c s q :
